@@ -300,18 +300,21 @@ func modSqrtRule(P *Program, R *Report) {
 	R.decide(rule, k+":every-factor", "true => for every factor a root exists (PrimeSqrt(a mod f, f) ok, or f == 4 with bit 1 of a clear)", m.holds, m.detail, P.Pos(fn.Pos()))
 	// the factor-4 branch is taken only for factor == 4
 	ok4 := false
-	for _, c := range callsIn(fn) {
-		call, isC := c.(*ssa.Call)
-		if !isC || bigMethod(c) != "Bit" || desc(call.Call.Args[0]) != "arg#0" {
-			continue
-		}
-		for _, at := range controllingConds(call.Block()) {
-			t0, t1, ok := eqTerms(normAtom(at), be)
-			if ok && ((t1.equal(tconst(4)) && strings.HasPrefix(t0.String(), "arg#1[")) || (t0.equal(tconst(4)) && strings.HasPrefix(t1.String(), "arg#1["))) {
-				ok4 = true
+	deepVisit(P, fn, 1, func(g *ssa.Function) {
+		bg := P.bigEval(g)
+		for _, c := range callsIn(g) {
+			call, isC := c.(*ssa.Call)
+			if !isC || bigMethod(c) != "Bit" || desc(call.Call.Args[0]) != "arg#0" {
+				continue
+			}
+			for _, at := range controllingConds(call.Block()) {
+				t0, t1, ok := eqTerms(normAtom(at), bg)
+				if ok && ((t1.equal(tconst(4)) && strings.HasPrefix(t0.String(), "arg#1[")) || (t0.equal(tconst(4)) && strings.HasPrefix(t1.String(), "arg#1["))) {
+					ok4 = true
+				}
 			}
 		}
-	}
+	})
 	R.decide(rule, k+":four-only", "the bit test replaces PrimeSqrt only for the factor 4", ok4, "", P.Pos(fn.Pos()))
 	// recombination
 	okCrt, okProd := false, false
